@@ -59,8 +59,16 @@ type Adapter struct {
 func NewAdapter(
 	ctrl controller.QController,
 	adapterOptions adapter.Options,
-) (*Adapter, error) {
+) (qadapter *Adapter, err error) {
 	name := ctrl.Name()
+
+	defer func() {
+		if err != nil {
+			// the registration is rejected: it should leave nothing behind in the dependency database
+			adapterOptions.DepDB.DeleteController(name)
+		}
+	}()
+
 	settings := ctrl.Settings()
 	primaryInputs := map[resourceNamespaceType]struct{}{}
 
